@@ -10,6 +10,7 @@ import (
 	errorsmod "cosmossdk.io/errors"
 
 	sdk "github.com/cosmos/cosmos-sdk/types"
+	sdkerrors "github.com/cosmos/cosmos-sdk/types/errors"
 )
 
 // UpdateCyclelist updates the cyclelist with the provided list of queryData.
@@ -21,10 +22,19 @@ func (k msgServer) UpdateCyclelist(ctx context.Context, req *types.MsgUpdateCycl
 		return nil, errorsmod.Wrapf(types.ErrInvalidSigner, "invalid authority; expected %s, got %s", k.keeper.GetAuthority(), req.Authority)
 	}
 
+	// the end blocker indexes the cycle list with the rotation counter in every block
+	if len(req.Cyclelist) == 0 {
+		return nil, errorsmod.Wrap(sdkerrors.ErrInvalidRequest, "cyclelist cannot be empty")
+	}
+
 	if err := k.keeper.Cyclelist.Clear(ctx, nil); err != nil {
 		return nil, err
 	}
 	if err := k.keeper.InitCycleListQuery(ctx, req.Cyclelist); err != nil {
+		return nil, err
+	}
+	// the rotation counter may point past the end of the new list
+	if err := k.keeper.CyclelistSequencer.Set(ctx, 0); err != nil {
 		return nil, err
 	}
 	queries := make([]string, len(req.Cyclelist))
